@@ -35,6 +35,9 @@ type PlanC20 struct {
 	// (ProcessCommand with a 50 ms context, never answered in time); the stream then carries a
 	// response bearing that id, which by then is an inbound envelope like any other.
 	LatePC bool `json:"late_pc,omitempty"`
+	// ByValue: the handlers are registered through the interface-taking methods as plain struct
+	// values (the first of each kind is the zero value of its type) instead of the *Func helpers
+	ByValue bool `json:"by_value,omitempty"`
 }
 
 func genC20(t *simrt.Tape, tier string) interface{} {
@@ -64,6 +67,7 @@ func genC20(t *simrt.Tape, tier string) interface{} {
 	p.GapMs = []int{0, 0, 1, 20}[t.Draw(4)]
 	p.EndEarly = []int{0, 0, 0, 1, 1, 2}[t.Draw(6)]
 	p.LatePC = t.Draw(4) == 0
+	p.ByValue = t.Draw(4) == 0
 	return p
 }
 
@@ -155,13 +159,36 @@ func runC20(w *World, pi interface{}) {
 		}
 	}
 	// registration through the public API, in table order
+	c20cur = &c20Hooks{
+		match:  func(kind, idx int, env interface{}) bool { return mkPred(kind, p.Table[kind][idx].Pred)(env) },
+		record: record,
+	}
 	type registrar interface {
+		MessageHandler(lime.MessageHandler)
+		NotificationHandler(lime.NotificationHandler)
+		RequestCommandHandler(lime.RequestCommandHandler)
+		ResponseCommandHandler(lime.ResponseCommandHandler)
 		MessageHandlerFunc(lime.MessagePredicate, lime.MessageHandlerFunc)
 		NotificationHandlerFunc(lime.NotificationPredicate, lime.NotificationHandlerFunc)
 		RequestCommandHandlerFunc(lime.RequestCommandPredicate, lime.RequestCommandHandlerFunc)
 		ResponseCommandHandlerFunc(lime.ResponseCommandPredicate, lime.ResponseCommandHandlerFunc)
 	}
 	register := func(m registrar) {
+		if p.ByValue {
+			for i := range p.Table[KMessage] {
+				m.MessageHandler(valMsgH{i})
+			}
+			for i := range p.Table[KNotification] {
+				m.NotificationHandler(valNotH{i})
+			}
+			for i := range p.Table[KRequest] {
+				m.RequestCommandHandler(valReqH{i})
+			}
+			for i := range p.Table[KResponse] {
+				m.ResponseCommandHandler(valRespH{i})
+			}
+			return
+		}
 		for i, h := range p.Table[KMessage] {
 			i, pr := i, mkPred(KMessage, h.Pred)
 			var pred lime.MessagePredicate
@@ -411,6 +438,45 @@ func runC20(w *World, pi interface{}) {
 
 type builderRegistrar struct{ b *lime.ServerBuilder }
 
+func (r builderRegistrar) MessageHandler(h lime.MessageHandler)           { r.b.MessageHandler(h) }
+func (r builderRegistrar) NotificationHandler(h lime.NotificationHandler) { r.b.NotificationHandler(h) }
+func (r builderRegistrar) RequestCommandHandler(h lime.RequestCommandHandler) {
+	r.b.RequestCommandHandler(h)
+}
+func (r builderRegistrar) ResponseCommandHandler(h lime.ResponseCommandHandler) {
+	r.b.ResponseCommandHandler(h)
+}
+
+// value handlers: plain structs used by value; the one with index 0 is the zero value of its type
+type c20Hooks struct {
+	match  func(kind, idx int, env interface{}) bool
+	record func(kind, idx int, env interface{}) error
+}
+
+var c20cur *c20Hooks
+
+type valMsgH struct{ Idx int }
+type valNotH struct{ Idx int }
+type valReqH struct{ Idx int }
+type valRespH struct{ Idx int }
+
+func (h valMsgH) Match(m *lime.Message) bool { return c20cur.match(KMessage, h.Idx, m) }
+func (h valMsgH) Handle(ctx context.Context, m *lime.Message, s lime.Sender) error {
+	return c20cur.record(KMessage, h.Idx, m)
+}
+func (h valNotH) Match(n *lime.Notification) bool { return c20cur.match(KNotification, h.Idx, n) }
+func (h valNotH) Handle(ctx context.Context, n *lime.Notification) error {
+	return c20cur.record(KNotification, h.Idx, n)
+}
+func (h valReqH) Match(c *lime.RequestCommand) bool { return c20cur.match(KRequest, h.Idx, c) }
+func (h valReqH) Handle(ctx context.Context, c *lime.RequestCommand, s lime.Sender) error {
+	return c20cur.record(KRequest, h.Idx, c)
+}
+func (h valRespH) Match(c *lime.ResponseCommand) bool { return c20cur.match(KResponse, h.Idx, c) }
+func (h valRespH) Handle(ctx context.Context, c *lime.ResponseCommand, s lime.Sender) error {
+	return c20cur.record(KResponse, h.Idx, c)
+}
+
 func (r builderRegistrar) MessageHandlerFunc(p lime.MessagePredicate, f lime.MessageHandlerFunc) {
 	r.b.MessageHandlerFunc(p, f)
 }
@@ -431,7 +497,7 @@ func init() {
 		Gen:    genC20,
 		Run:    runC20,
 		MaxSim: 2 * time.Hour,
-		Rule: "plans = (handler table: 0-4 handlers per kind, predicate from {nil, always, never, even/odd sequence number, kind-specific field test}, optional error at the k-th call; on the server (ServerBuilder) or on a client-side EnvelopeMux; " +
+		Rule: "plans = (handler table: 0-4 handlers per kind, predicate from {nil, always, never, even/odd sequence number, kind-specific field test}, optional error at the k-th call, registered through the *Func helpers or as plain struct values through the interface-taking methods; on the server (ServerBuilder) or on a client-side EnvelopeMux; " +
 			"handler durations 0/3/150 ms; 1-50 inbound envelopes of all four kinds over tcp/tcp+tls/ws/wss/in-process with buffer sizes incl. 0; in a third of the runs the sending party finishes the session or drops the connection right after its last send, while handlers are still running; in a quarter of the runs the receiving side first gives up on a command of its own and the stream carries the late response to it); oracle: exactly one invocation, of the earliest-registered matching handler, envelope unaltered; none when nothing matches and later ones still dispatched; " +
 			"nothing after a handler error, and the server finishes the session; non-trivial = session established; distinct = distinct (plan JSON, event-log hash)",
 	})
